@@ -1,6 +1,8 @@
 """C01 -- degree-preserving rewiring keeps every node's degree and the weight multiset."""
 import numpy as np
 
+from ..monitor import CaseTimeout
+
 from .. import graphs as G
 from .. import oracles as O
 from .. import rng as rngmod
@@ -94,6 +96,14 @@ def cases(tier, seed):
                 out.append({'f': f, 'g': g, 'w': w, 'ws': i, 'directed': True, 'kind': 'single',
                             'itrs': [0, 1, 3] if thorough else [0, 2], 'rs': seed * 100 + i, 'pol': POL[i % len(POL)],
                             'allpol': thorough and i % 5 == 0})
+    # (c'') undirected weights that are symmetric only up to rounding (relative 1e-10, far inside the routines' own
+    # symmetry tolerance): the two triangles hold different numbers and every one of them has to survive
+    for i, g in enumerate(recs_u[:: (3 if thorough else 9)]):
+        for f in UND_F:
+            if f in ('randomizer_bin_und', 'randomize_graph_partial_und'):
+                continue
+            out.append({'f': f, 'g': g, 'w': ('real', 'logu', 'int')[i % 3], 'ws': i, 'directed': False, 'kind': 'symnoise',
+                        'rs': seed * 100 + i, 'pol': POL[i % len(POL)]})
     # (c') sizes beyond any plausible fast-path threshold (a few hundred nodes), small budgets
     for n in ((260, 520) if thorough else (260,)):
         for f in UND_F:
@@ -181,6 +191,23 @@ def run(case, bct, REC):
         REC.tag(PROP, 'chain_links', case['len'])
         REC.tag(PROP, 'chain_accepted_swaps', acc)
         REC.sample(PROP, {'kind': 'chain', 'f': f, 'R': R, 'links': case['len'], 'accepted': acc, 'rng': case['rng']})
+        return
+    if case['kind'] == 'symnoise':
+        R = R * (1 + 1e-10 * np.triu(np.random.RandomState(case['rs']).rand(n, n), 1))
+        for itr, d in ((1, {'kind': 'spy', 'seed': case['rs']}), (3, {'kind': 'hostile', 'policy': case['pol'], 'seed': case['rs']})):
+            Rin = R.copy()
+            REC.tag(PROP, 'exec')
+            try:
+                res = getattr(bct, f)(R, itr, seed=rngmod.make_rng(d))
+            except CaseTimeout:
+                raise
+            except Exception:  # noqa -- a routine may insist on exact symmetry
+                REC.tag(PROP, 'nearly_symmetric_rejected:' + f)
+                continue
+            X = np.asarray(res[0])
+            RW.post(REC, f, Rin, X, False, None, classes=('nearly_symmetric_input',))
+            if not np.array_equal(X, Rin):
+                REC.note_nontrivial(PROP, f, Rin, itr, 'symnoise')
         return
     pols = POL if case.get('allpol') else [case['pol']]
     descrs = [{'kind': 'spy', 'seed': case['rs']}] + [{'kind': 'hostile', 'policy': p, 'seed': case['rs']} for p in pols]
